@@ -18,6 +18,7 @@ RULE += " The caller keeps every object it was handed (Portfolio objects, the ho
 RULE += ' A fifth of the cases use odd-case / colliding asset symbols (EQ:spy, EQ:Brk.b, EQ:AAA next to EQ:aaa); two of the start instants lie before 1970.'
 RULE += ' A third of the direct transactions are created first and given their commission afterwards (public attribute). 15% of the quote changes arrive through ANOTHER data handler object assigned to broker.data_handler.'
 RULE += ' Round 11: 12% of the cases run with warnings escalated to errors; 12% use free-text portfolio ids (\'p%1\', \'100%s\', \'a b\', "p\'4"); valid direct marks / transactions with whole-number prices and commissions given as ints, and fills without a positive price in a held asset (refused), are part of every fault mode; a hand-made transaction is booked in the ledger with the quantity, price and commission the harness put in.'
+RULE += ' Round 12: every fifth shard runs with decimal.getcontext().prec = 6, loud cases print to an ASCII-only console; one portfolio-ladder shard in four first drives a portfolio through 2**16 + k fills (k < 900) and reads its whole history (length, first event, last running balance).'
 ASSUMPTIONS = [
     'fills are taken as the Transaction delivered to Portfolio.transact_asset (price, signed quantity, commission); '
     'that these equal quote and fee model is C05',
